@@ -18,6 +18,7 @@ func checkC19(c *Check) {
 	p := c.P
 	c.decodePrefixRules("C19.1 prefix")
 	c.accumulatorsStartEmpty("C19.1 accumulators", "decodePrefixes", "decodeAddPathPrefixes", "DecodeMPReachIPv6NextHops")
+	c.setDecoderShape("C19.3 next-hop-list", "DecodeMPReachIPv6NextHops", 16)
 	c.specConstants("C19.3 spec-constants", "NOTIF_CODE_UPDATE_MESSAGE_ERR", "NOTIF_SUBCODE_MALFORMED_ATTR_LIST", "NOTIF_SUBCODE_UNRECOGNIZED_WELL_KNOWN_ATTR", "NOTIF_SUBCODE_MISSING_WELL_KNOWN_ATTR", "NOTIF_SUBCODE_ATTR_FLAGS_ERR", "NOTIF_SUBCODE_ATTR_LEN_ERR", "NOTIF_SUBCODE_INVALID_ORIGIN_ATTR", "NOTIF_SUBCODE_INVALID_NEXT_HOP_ATTR", "NOTIF_SUBCODE_OPTIONAL_ATTR_ERR", "NOTIF_SUBCODE_INVALID_NETWORK_FIELD", "NOTIF_SUBCODE_MALFORMED_AS_PATH", "PATH_ATTR_MP_REACH_NLRI", "PATH_ATTR_MP_UNREACH_NLRI", "AFI_IPV4", "AFI_IPV6", "SAFI_UNICAST")
 	c.prefixLoops("C19.1 prefix-lists")
 	c.nlriWrappers("C19.2 wrappers")
@@ -249,7 +250,6 @@ func (c *Check) prefixLoops(rule string) {
 				if !r.State.must["call:decodePrefix"] {
 					okF = false
 				}
-				entered = true
 			}
 			for in, sts := range d.At {
 				if ci, isC := in.(ssa.CallInstruction); isC && p.calleeDesc(ci) == "builtin:append" {
